@@ -25,12 +25,13 @@ import (
 // C06: gzip and zlib containers round-trip and interoperate with the standard library.
 
 type C06Case struct {
-	Pkg    string  `json:"pkg"` // gzip | zlib
-	Dir    string  `json:"dir"` // f2s | s2f | f2f
-	M      Member  `json:"member"`
-	Reuse  *Member `json:"reuse,omitempty"` // the Writer wrote this member first, then Reset
-	Reads  []int   `json:"reads"`
-	BufSrc int     `json:"buf_src"` // 0: bytes.Reader source; >0: *bufio.Reader of this size
+	Pkg     string  `json:"pkg"` // gzip | zlib
+	Dir     string  `json:"dir"` // f2s | s2f | f2f
+	M       Member  `json:"member"`
+	Reuse   *Member `json:"reuse,omitempty"`   // the Writer wrote this member first, then Reset
+	Abandon bool    `json:"abandon,omitempty"` // ... without closing it (stream abandoned mid-way)
+	Reads   []int   `json:"reads"`
+	BufSrc  int     `json:"buf_src"` // 0: bytes.Reader source; >0: *bufio.Reader of this size
 }
 
 func drawC06(t *rapid.T) C06Case {
@@ -55,6 +56,7 @@ func drawC06(t *rapid.T) C06Case {
 		r := drawMember(t, c.Pkg, 70<<10)
 		r.Enc, r.Level, r.Dict = c.M.Enc, c.M.Level, c.M.Dict
 		c.Reuse = &r
+		c.Abandon = rapid.Bool().Draw(t, "abandon")
 	}
 	c.Reads = drawReadSizes(t)
 	c.BufSrc = rapid.SampledFrom([]int{0, 0, 16, 64, 4096, 65536}).Draw(t, "bufsrc")
@@ -94,7 +96,14 @@ func checkC06(c C06Case) (labels []string, nontrivial bool, err error) {
 		if err != nil {
 			return nil, false, err
 		}
-		if e := writeMemberOps(w, c.Reuse.Data.Bytes(), c.Reuse.Ops); e != nil {
+		if c.Abandon {
+			if _, e := w.Write(c.Reuse.Data.Bytes()); e != nil {
+				return nil, false, fmt.Errorf("first use of the Writer: %v", e)
+			}
+			if c.Reuse.Data.Len()%2 == 0 {
+				w.Flush()
+			}
+		} else if e := writeMemberOps(w, c.Reuse.Data.Bytes(), c.Reuse.Ops); e != nil {
 			return nil, false, fmt.Errorf("first use of the Writer: %v", e)
 		}
 		w.Reset(sink)
@@ -211,6 +220,9 @@ func checkC06(c C06Case) (labels []string, nontrivial bool, err error) {
 	}
 	if c.Reuse != nil {
 		labels = append(labels, "writer-reused")
+		if c.Abandon {
+			labels = append(labels, "writer-reused-after-abandoned-stream")
+		}
 	}
 	accel := c.M.Level == -2 || c.M.Level == -1 || c.M.Level == 1 || c.M.Level == 2
 	return labels, len(data) >= 1 && (accel || opt), nil
